@@ -49,7 +49,7 @@ def run(out, info, tier, seed):
     sched_check.sched_property(out, info, tier, seed, 'C16', KINDS, monitors.P_C16, case_gen=case_gen,
                                ncases=(130, 2000), variants=[(True, True), (False, True), (False, False)],
                                nontrivial=nontrivial, features=features,
-                               extra_obligations=[('Sched.Final (async bound)', 'Sched/Final'), ('Sched.DataP', 'Sched/DataP')])
+                               extra_obligations=[('Sched.Final (async bound)', 'Sched/Final'), ('Sched.DataP', 'Sched/DataP'), ('Sched.SetData (set_data stays until the next step and is delivered by it)', 'Sched/SetData')])
     out.coverage['nontrivial_rule'] = 'a set_data call was issued during the run'
 
 
